@@ -750,6 +750,29 @@ Section ArrayRefinement.
     cbn [fst snd] in *. subst y. f_equal. apply IH; auto. lia.
   Qed.
 
+  (* the relation survives a history: whatever store a history reaches (e.g. the one a later
+     rollback resets to), operations issued from there — through any handle, the model has no
+     per-handle state — again return what the list reached by that history returns *)
+  Lemma arr_exec_refines ops : forall s l, arr_rel s l -> Forall aop_ok ops ->
+    (Z.of_nat (length l + length ops) < max_len)%Z ->
+    arr_rel (arr_exec sizeK elemK s ops) (lst_exec l ops) /\
+    (length (lst_exec l ops) <= length l + length ops)%nat.
+  Proof.
+    induction ops as [|o r IH]; intros s l R Hok Hb; cbn [arr_exec lst_exec length]; [split; [exact R | lia]|].
+    inversion Hok as [|? ? Ho Hr]; subst. cbn [length] in Hb.
+    destruct (arr_step_refines s l o R Ho ltac:(lia)) as [R1 _].
+    pose proof (lst_step_length l o) as Hlen.
+    destruct (IH _ _ R1 Hr ltac:(lia)) as [R2 L2]. split; [exact R2 | lia].
+  Qed.
+
+  Lemma arr_resume s0 ops1 ops2 : arr_rel s0 [] -> Forall aop_ok ops1 -> Forall aop_ok ops2 ->
+    (Z.of_nat (length ops1 + length ops2) < max_len)%Z ->
+    arr_run sizeK elemK (arr_exec sizeK elemK s0 ops1) ops2 = lst_run (lst_exec [] ops1) ops2.
+  Proof.
+    intros R H1 H2 Hb. destruct (arr_exec_refines ops1 s0 [] R H1 ltac:(cbn [length]; lia)) as [R1 L1].
+    apply arr_run_refines; auto. cbn [length] in L1. lia.
+  Qed.
+
   (* an array touches only its own slots *)
   Lemma arr_step_frame s o k : k <> sizeK -> (forall i, k <> elemK i) ->
     kv_get (fst (arr_step sizeK elemK s o)) k = kv_get s k.
@@ -820,6 +843,18 @@ Section ArrayBuilt.
     intros [Hinj Hne] Hs He Hok Hb.
     apply (arr_run_refines _ _ Hinj Hne); auto.
     now apply arr_rel_init.
+  Qed.
+
+  Theorem array_resume key s0 ops1 ops2 : array_slots_ok key ->
+    kv_get s0 (array_size_key H key) = None ->
+    (forall i, in_i64 i -> kv_get s0 (array_elem_key H key i) = None) ->
+    Forall aop_ok ops1 -> Forall aop_ok ops2 -> (Z.of_nat (length ops1 + length ops2) < max_len)%Z ->
+    arr_run (array_size_key H key) (array_elem_key H key)
+      (arr_exec (array_size_key H key) (array_elem_key H key) s0 ops1) ops2
+    = lst_run (lst_exec [] ops1) ops2.
+  Proof.
+    intros [Hinj Hne] Hs He H1 H2 Hb.
+    apply (arr_resume _ _ Hinj Hne); auto. now apply arr_rel_init.
   Qed.
 
   Theorem array_frame key s o k : k <> array_size_key H key -> (forall i, k <> array_elem_key H key i) ->
